@@ -95,7 +95,16 @@ func init() {
 				})
 			}
 			obs := func(t int) map[string]interface{} {
-				o := map[string]interface{}{"out": copyInts(rec.out), "mon": copyInts(mon.got), "inv": false, "fin": false, "panic": ""}
+				fl, nbuf, wr, rd := gate.VerifPeek()
+				logs, idx, nh, rl := ring.VerifPeek()
+				li := make([]int, len(logs))
+				for i, s := range logs {
+					if s != "" {
+						li[i] = lineOf([]byte(s))
+					}
+				}
+				x := map[string]interface{}{"fl": fl, "nbuf": nbuf, "wr": wr, "rd": rd, "logs": li, "idx": idx, "reg": nh > 0, "rl": rl}
+				o := map[string]interface{}{"out": copyInts(rec.out), "mon": copyInts(mon.got), "inv": false, "fin": false, "panic": "", "x": x}
 				if t > 0 {
 					o["inv"], o["fin"] = inv[t], fin[t]
 					inv[t], fin[t] = false, false
